@@ -1,7 +1,274 @@
-"""kani_run.py -- Kani back end (overlay of the whole crate). Filled in below."""
+"""kani_run.py -- Kani back end.
+
+A scratch copy ("overlay") of the whole crate is made under /tmp/verif.<pid>/ on every run
+from /repo's *current working tree*; every file kani/<mod>.rs named in kani/harnesses.json is
+appended to the copy of its src file as `#[cfg(kani)] mod verif_kani_<mod> { use super::*; ... }`.
+The real functions are untouched; private items are reachable because the harness module is a
+child of their module.  Nothing is kept under /tmp after the run; only the dependency build
+cache lives in /verif/.cache (re-creatable).
+
+harnesses.json entries:
+  {"name": fn name of the harness, "module": "xls" (kani/xls.rs), "append_to": "src/xls.rs",
+   "props": ["C02"], "kind": "complete"|"bounded", "bound": "text" (bounded only),
+   "tier": "quick"|"thorough", "timeout": seconds, "features": "dates", "unwind": N|null,
+   "obligation": "short name", "stubs_expected": ["fmt::format"]}
+"""
+import json, os, re, shutil, subprocess, sys, tempfile, time, hashlib, atexit, signal
+
+VERIF = os.path.dirname(os.path.dirname(os.path.abspath(__file__)))
+REPO = os.environ.get("VERIF_REPO", "/repo")
+CACHE = os.path.join(VERIF, ".cache")
+
+_overlays = []
+
+
+def _cleanup():
+    for d in _overlays:
+        shutil.rmtree(d, ignore_errors=True)
+
+
+atexit.register(_cleanup)
+
+
+def load_harnesses():
+    """kani/<module>.json: {"append_to": "src/x.rs", "harnesses": [...]} next to kani/<module>.rs"""
+    out = []
+    kd = os.path.join(VERIF, "kani")
+    for fn in sorted(os.listdir(kd)) if os.path.isdir(kd) else []:
+        if fn.endswith(".json"):
+            d = json.load(open(os.path.join(kd, fn)))
+            for h in d.get("harnesses", []):
+                h["module"] = fn[:-5]
+                h["append_to"] = d["append_to"]
+                out.append(h)
+    return out
+
+
+def all_modules():
+    kd = os.path.join(VERIF, "kani")
+    out = {}
+    for fn in sorted(os.listdir(kd)) if os.path.isdir(kd) else []:
+        if fn.endswith(".json"):
+            out[fn[:-5]] = json.load(open(os.path.join(kd, fn)))["append_to"]
+    return out
+
+
+def make_overlay(modules=None, extra_tests=None, kani=True):
+    """copy /repo working tree (without target/.git) and append harness modules; returns dir"""
+    d = tempfile.mkdtemp(prefix=f"verif.{os.getpid()}.", dir="/tmp")
+    _overlays.append(d)
+    root = os.path.join(d, "calamine")
+    shutil.copytree(REPO, root, ignore=shutil.ignore_patterns("target", ".git", "fuzz", "benches", "examples"))
+    # strip [[bench]]/[[example]] sections that point at removed dirs (none in this crate, but be safe)
+    mods = modules or {}
+    for m, append_to in mods.items():
+        src = open(os.path.join(VERIF, "kani", f"{m}.rs")).read()
+        with open(os.path.join(root, append_to), "a") as f:
+            f.write(f"\n#[cfg(kani)]\n#[allow(unused, clippy::all)]\npub(crate) mod verif_kani_{m} {{\n    use super::*;\n{src}\n}}\n")
+    for append_to, text in (extra_tests or []):
+        with open(os.path.join(root, append_to), "a") as f:
+            f.write("\n" + text + "\n")
+    cfg = os.path.join(root, ".cargo")
+    os.makedirs(cfg, exist_ok=True)
+    with open(os.path.join(cfg, "config.toml"), "w") as f:
+        f.write("[net]\noffline = true\n")
+    return root
+
+
+def parse_kani_output(out):
+    """returns {harness: {"status":..., "checks": n, "failed": [descr], "time_s": t}}"""
+    res = {}
+    cur = None
+    threads = {}
+    for line in out.split("\n"):
+        m = re.match(r"Checking harness (\S+?)\.\.\.", line)
+        if m:
+            cur = m.group(1).split("::")[-1]
+            res[cur] = {"status": "UNKNOWN", "checks": 0, "failed": [], "time_s": 0.0, "cover_unsat": []}
+            continue
+        m = re.match(r"Thread (\d+): Checking harness (\S+?)\.\.\.", line)
+        if m:
+            h = m.group(2).split("::")[-1]
+            threads[m.group(1)] = h
+            res.setdefault(h, {"status": "UNKNOWN", "checks": 0, "failed": [], "time_s": 0.0, "cover_unsat": []})
+            continue
+        m = re.match(r"Thread (\d+):\s*$", line)
+        if m:
+            cur = threads.get(m.group(1))
+            continue
+        if cur is None:
+            continue
+        m = re.match(r"\s*\*\* (\d+) of (\d+) failed", line)
+        if m:
+            res[cur]["checks"] = int(m.group(2))
+        m = re.match(r"Failed Checks: (.*)", line)
+        if m:
+            res[cur]["failed"].append(m.group(1).strip())
+        m = re.match(r"\s*\*\* (\d+) of (\d+) cover properties satisfied", line)
+        if m and int(m.group(1)) != int(m.group(2)):
+            res[cur]["cover_unsat"].append(line.strip())
+        m = re.match(r"VERIFICATION:- (\w+)", line)
+        if m:
+            res[cur]["status"] = "SUCCESS" if m.group(1) == "SUCCESSFUL" else "FAILED"
+        m = re.match(r"Verification Time: ([\d.]+)s", line)
+        if m:
+            res[cur]["time_s"] = float(m.group(1))
+    # terse / parallel summary lines: "Verification failed for - harness" / "Complete - N successfully verified"
+    for m in re.finditer(r"Verification failed for - (\S+)", out):
+        h = m.group(1).split("::")[-1]
+        res.setdefault(h, {"status": "FAILED", "checks": 0, "failed": [], "time_s": 0.0, "cover_unsat": []})["status"] = "FAILED"
+    return res
+
+
+def kani_env():
+    env = dict(os.environ)
+    env["CARGO_NET_OFFLINE"] = "true"
+    env["CARGO_TARGET_DIR"] = os.path.join(CACHE, "target-kani")
+    return env
+
+
+def run_group(root, hs, features, timeout):
+    """run a list of harnesses (same features) in one cargo kani invocation"""
+    cmd = ["cargo", "kani", "-Z", "function-contracts", "-Z", "stubbing", "--output-format", "terse", "-j", str(min(16, max(1, len(hs))))]
+    if features:
+        cmd += ["--features", features]
+    for h in hs:
+        cmd += ["--harness", h["name"]]
+    t0 = time.time()
+    try:
+        p = subprocess.run(cmd, cwd=root, capture_output=True, text=True, env=kani_env(), timeout=timeout)
+        out = p.stdout + "\n" + p.stderr
+        to = False
+    except subprocess.TimeoutExpired as e:
+        out = (e.stdout.decode() if e.stdout else "") + "\n" + (e.stderr.decode() if e.stderr else "")
+        to = True
+        subprocess.run(["pkill", "-f", "cbmc"], capture_output=True)
+    return " ".join(cmd), out, to, time.time() - t0
+
+
+def playback_for(root, h, features):
+    """ask Kani for a concrete counterexample of harness h; returns test source or None"""
+    cmd = ["cargo", "kani", "-Z", "function-contracts", "-Z", "stubbing", "-Z", "concrete-playback", "--concrete-playback=print", "--harness", h["name"]]
+    if features:
+        cmd += ["--features", features]
+    try:
+        p = subprocess.run(cmd, cwd=root, capture_output=True, text=True, env=kani_env(), timeout=h.get("timeout", 300))
+    except subprocess.TimeoutExpired:
+        return None
+    out = p.stdout
+    m = re.search(r"```\s*\n(.*?#\[test\].*?)```", out, re.S)
+    if m:
+        return m.group(1)
+    m = re.search(r"(/// Test generated for harness.*?\n}\n)", out, re.S)
+    return m.group(1) if m else None
+
+
 def run_for(prop, tier):
-    return []
-def demo_findings():
-    return 0
+    hs = [h for h in load_harnesses() if prop in h["props"] and (tier == "thorough" or h.get("tier", "quick") == "quick")]
+    if not hs:
+        return []
+    root = make_overlay(all_modules())
+    results = []
+    groups = {}
+    for h in hs:
+        groups.setdefault(h.get("features", ""), []).append(h)
+    for feats, gh in groups.items():
+        timeout = max(h.get("timeout", 300) for h in gh) + 120
+        cmd, out, timed_out, wall = run_group(root, gh, feats, timeout)
+        parsed = parse_kani_output(out)
+        os.makedirs(os.path.join(VERIF, ".work"), exist_ok=True)
+        open(os.path.join(VERIF, ".work", f"kani_{prop}_{feats or 'nofeat'}.log"), "w").write(out)
+        kr = {"cmds": [cmd], "harnesses": [], "failed": [], "undecided": [], "trusted": []}
+        for m in re.finditer(r"- Stub: (\S+) -> (\S+)|stub[^\n]*?(\w+::fmt::format)", out):
+            pass
+        for h in gh:
+            r = parsed.get(h["name"])
+            if r is None or r["status"] == "UNKNOWN":
+                why = "timed out" if timed_out else "no result (build error?)"
+                errs = re.findall(r"(error(?:\[E\d+\])?: .*?)\n\s*\n", out, re.S)
+                tail = "" if timed_out else " :: " + re.sub(r"\s+", " ", " | ".join(errs)[:1200] or out[-600:])
+                kr["undecided"].append(f"kani:{h['name']}: {why}{tail}")
+                kr["harnesses"].append({"name": h["name"], "kind": h["kind"], "status": "UNDECIDED", "checks": 0, "time_s": round(wall, 1), "bound": h.get("bound")})
+                continue
+            if r["cover_unsat"]:
+                kr["undecided"].append(f"kani:{h['name']}: vacuity: {r['cover_unsat']}")
+            kr["harnesses"].append({"name": h["name"], "kind": h["kind"], "status": r["status"], "checks": r["checks"], "time_s": r["time_s"], "bound": h.get("bound"), "obligation": h.get("obligation")})
+            if r["status"] == "FAILED":
+                name = f"kani/{h['module']}/{h.get('obligation', h['name'])}"
+                test = playback_for(root, h, feats)
+                os.makedirs(os.path.join(VERIF, "replay"), exist_ok=True)
+                hh = hashlib.sha256(name.encode()).hexdigest()[:10]
+                path = os.path.join(VERIF, "replay", f"{prop}-{hh}.json")
+                json.dump({"property": prop, "obligation": name, "backend": "kani", "harness": h["name"], "module": h["module"], "append_to": h["append_to"],
+                           "features": feats, "failed_checks": r["failed"], "playback_test": test,
+                           "failing_input": "see playback_test (concrete bytes for every kani::any())" if test else None,
+                           "replay_cmd": f"./check {prop} --replay {path}"}, open(path, "w"), indent=1)
+                kr["failed"].append({"name": name, "props": h["props"], "replay": path, "has_input": bool(test), "kind": "kani", "fn": h.get("obligation", h["name"])})
+        for h in gh:
+            for s in h.get("stubs", []):
+                kr["trusted"].append(f"kani stub in {h['name']}: {s}")
+        results.append(kr)
+    shutil.rmtree(os.path.dirname(root), ignore_errors=True)
+    return results
+
+
 def replay(prop, path):
-    return 0
+    d = json.load(open(path))
+    if d.get("backend") == "kani":
+        if not d.get("playback_test"):
+            print(f"replay: no concrete input recorded for {d['obligation']}; failed checks: {d['failed_checks']}")
+            return 1
+        test = d["playback_test"]
+        m = re.search(r"fn (kani_concrete_playback_\w+)", test)
+        tname = m.group(1)
+        root = make_overlay(all_modules())
+        # put the playback test inside the harness module
+        p = os.path.join(root, d["append_to"])
+        txt = open(p).read()
+        idx = txt.rindex("}")
+        txt = txt[:idx] + "\n" + test + "\n}\n"
+        open(p, "w").write(txt)
+        cmd = ["cargo", "kani", "playback", "-Z", "concrete-playback", "--", tname]
+        if d.get("features"):
+            cmd[3:3] = ["--features", d["features"]]
+        p = subprocess.run(cmd, cwd=root, env=kani_env(), capture_output=True, text=True)
+        print(p.stdout[-3000:])
+        print(p.stderr[-3000:])
+        ok = ("test result: FAILED" in p.stdout) or ("panicked" in p.stdout + p.stderr)
+        print("replay: violation reproduced on the real code" if ok else "replay: NOT reproduced")
+        return 1 if ok else 0
+    else:
+        # verus obligation: re-run the unit and report whether the obligation still fails
+        sys.path.insert(0, os.path.join(VERIF, "tools"))
+        import driver
+        ur = driver.run_unit(d["unit"], threads=8)
+        still = [o for o in ur.failed if o["name"] == d["obligation"]]
+        print(f"obligation {d['obligation']}: {'STILL FAILS' if still else 'discharged now'}")
+        for t in d.get("verifier_output", []):
+            print(t)
+        return 1 if still else 0
+
+
+def demo_findings():
+    """run the native demonstration of every known finding against the real code (cargo test in an overlay)"""
+    sys.path.insert(0, os.path.join(VERIF, "tools"))
+    import driver
+    kf = driver.load_known()
+    tests = []
+    for k in kf["findings"]:
+        demo = k.get("demo")
+        if demo:
+            tests.append((demo["append_to"], open(os.path.join(VERIF, demo["file"])).read()))
+    if not tests:
+        print("no demos")
+        return 0
+    root = make_overlay({}, extra_tests=tests, kani=False)
+    env = dict(os.environ)
+    env["CARGO_NET_OFFLINE"] = "true"
+    env["CARGO_TARGET_DIR"] = os.path.join(CACHE, "target-native")
+    p = subprocess.run(["cargo", "test", "--offline", "--lib", "--features", "dates", "verif_demo"], cwd=root, env=env, capture_output=True, text=True)
+    print(p.stdout[-6000:])
+    if p.returncode != 0:
+        print(p.stderr[-3000:])
+    shutil.rmtree(os.path.dirname(root), ignore_errors=True)
+    return p.returncode
